@@ -86,6 +86,9 @@ theorem wf_iff (cfg : Cfg) (d : Dict) : wf cfg d = true ↔ d.map Prod.fst = cfg
 @[simp] theorem fine_struct (s : St) : (fine s).struct = s.struct := rfl
 @[simp] theorem fine_mem (s : St) : (fine s).mem = s.mem := rfl
 @[simp] theorem failed_ok (s : St) : (failed s).ok = false := rfl
+@[simp] theorem failedExc_struct (e : Option ExcKind) (s : St) : (failedExc e s).struct = s.struct := rfl
+@[simp] theorem failedExc_mem (e : Option ExcKind) (s : St) : (failedExc e s).mem = s.mem := rfl
+@[simp] theorem failedExc_ok (e : Option ExcKind) (s : St) : (failedExc e s).ok = false := rfl
 @[simp] theorem fine_ok (s : St) : (fine s).ok = true := rfl
 @[simp] theorem announceMemberIn_struct (m : String) (x : Val) (s : St) : (announceMemberIn m x s).struct = s.struct := rfl
 @[simp] theorem announceMemberIn_mem (m : String) (x : Val) (s : St) :
@@ -149,11 +152,11 @@ theorem inv_announceMember (cfg : Cfg) (m : String) (x : Val) (s : St) (h : Inv 
   apply inv_congr cfg (emit_struct _ _) (emit_mem _ _)
   exact inv_assignStruct cfg _ _ (wf_set cfg _ m x h.1 hm)
 
-theorem inv_readStructA (cfg : Cfg) (r : Option Dict) (s : St) (h : Inv cfg s) : Inv cfg (readStructA cfg r s) := by
+theorem inv_readStructA (cfg : Cfg) (r : RRes Dict) (s : St) (h : Inv cfg s) : Inv cfg (readStructA cfg r s) := by
   unfold readStructA
   cases r with
-  | none => exact h
-  | some d =>
+  | fail k => exact h
+  | ok d =>
     simp only
     split
     · rename_i hd; exact inv_congr cfg (fine_struct _) (fine_mem _) (inv_announceStruct cfg d s hd)
@@ -165,7 +168,7 @@ theorem inv_writeStructA (cfg : Cfg) (v : Dict) (w : WRes Dict) (s : St) (h : In
   by_cases hv : wf cfg v = true
   · simp only [hv, Bool.not_true, Bool.false_eq_true, if_false]
     cases w with
-    | fail => exact h
+    | fail k => exact h
     | retNone => exact inv_congr cfg (fine_struct _) (fine_mem _) (inv_announceStruct cfg v s hv)
     | ret d =>
       simp only
@@ -174,7 +177,7 @@ theorem inv_writeStructA (cfg : Cfg) (v : Dict) (w : WRes Dict) (s : St) (h : In
       · exact h
   · simp only [hv, Bool.not_false, if_true]; exact h
 
-theorem inv_readMemberA (cfg : Cfg) (m : String) (r : Option Dict) (s : St) (h : Inv cfg s) (hm : m ∈ cfg.members) :
+theorem inv_readMemberA (cfg : Cfg) (m : String) (r : RRes Dict) (s : St) (h : Inv cfg s) (hm : m ∈ cfg.members) :
     Inv cfg (readMemberA cfg m r s) := by
   unfold readMemberA
   have h1 := inv_readStructA cfg r s h
@@ -185,7 +188,7 @@ theorem inv_readMemberA (cfg : Cfg) (m : String) (r : Option Dict) (s : St) (h :
     · exact h1
     · exact inv_congr cfg (fine_struct _) (fine_mem _) (inv_announceMember cfg m _ _ h1 hm)
 
-theorem inv_writeMemberA (cfg : Cfg) (m : String) (v : Val) (w : WRes Dict) (r : Option Dict) (s : St)
+theorem inv_writeMemberA (cfg : Cfg) (m : String) (v : Val) (w : WRes Dict) (r : RRes Dict) (s : St)
     (h : Inv cfg s) (hm : m ∈ cfg.members) : Inv cfg (writeMemberA cfg m v w r s) := by
   unfold writeMemberA
   have h1 := inv_writeStructA cfg (s.struct.set m v) w s h
@@ -199,13 +202,13 @@ theorem inv_writeMemberA (cfg : Cfg) (m : String) (v : Val) (w : WRes Dict) (r :
       · exact h2
       · exact inv_congr cfg (fine_struct _) (fine_mem _) (inv_announceMember cfg m _ _ h2 hm)
 
-theorem inv_readMemberB (cfg : Cfg) (m : String) (r : Option Val) (s : St) (h : Inv cfg s) (hm : m ∈ cfg.members) :
+theorem inv_readMemberB (cfg : Cfg) (m : String) (r : RRes Val) (s : St) (h : Inv cfg s) (hm : m ∈ cfg.members) :
     Inv cfg (readMemberB cfg m r s) := by
   unfold readMemberB
   split
   · cases r with
-    | none => exact h
-    | some x => exact inv_congr cfg (fine_struct _) (fine_mem _) (inv_announceMember cfg m x s h hm)
+    | fail k => exact h
+    | ok x => exact inv_congr cfg (fine_struct _) (fine_mem _) (inv_announceMember cfg m x s h hm)
   · exact h
 
 theorem inv_writeMemberB (cfg : Cfg) (m : String) (v : Val) (w : WRes Val) (s : St) (h : Inv cfg s)
@@ -244,7 +247,7 @@ theorem linv_push (s0 : St) (done : List String) (m : String) (x : Val) (l l' : 
   simp only [List.map_append, List.map_cons, List.map_nil, List.length_append, List.length_cons, List.length_nil]
   rw [h2, hlen, List.take_of_length_le (by simp), List.take_of_length_le (by simp)]
 
-theorem linv_readIter (cfg : Cfg) (r : String → Option Val) (s0 : St) (done : List String) (m : String) (l : Loop)
+theorem linv_readIter (cfg : Cfg) (r : String → RRes Val) (s0 : St) (done : List String) (m : String) (l : Loop)
     (h : LInv s0 done l) : LInv s0 (done ++ [m]) (readIter cfg r l m) := by
   unfold readIter
   split
@@ -292,7 +295,7 @@ theorem inv_finishLoop (cfg : Cfg) (s0 : St) (l : Loop) (h0 : Inv cfg s0) (hl : 
   unfold finishLoop
   split
   · -- a member failed: the struct is re-synchronised with the partial result
-    apply inv_congr cfg (failed_struct _) (failed_mem _)
+    apply inv_congr cfg (failedExc_struct _ _) (failedExc_mem _ _)
     apply inv_assignStruct
     rw [wf_iff, h1]
     rw [keys_merge]
@@ -310,7 +313,7 @@ theorem inv_finishLoop (cfg : Cfg) (s0 : St) (l : Loop) (h0 : Inv cfg s0) (hl : 
     rw [if_pos hwf]
     exact inv_congr cfg (fine_struct _) (fine_mem _) (inv_announceStruct cfg _ _ hwf)
 
-theorem inv_readStructB (cfg : Cfg) (r : String → Option Val) (s : St) (h : Inv cfg s) : Inv cfg (readStructB cfg r s) := by
+theorem inv_readStructB (cfg : Cfg) (r : String → RRes Val) (s : St) (h : Inv cfg s) : Inv cfg (readStructB cfg r s) := by
   unfold readStructB
   apply inv_finishLoop cfg s _ h
   have := linv_foldl (readIter cfg r) s (fun done m l hl => linv_readIter cfg r s done m l hl) cfg.members []
@@ -553,6 +556,57 @@ theorem finv_writeFloat (cfg : FCfg) (x : Val) (w : WRes Int) (s : FSt) (h : FIn
           simp only [FInv, ShowsIndexValue, femit]
           exact hv
 
+theorem lookup_isSome_of_mem (l : List (Int × Val)) (i : Int) (v : Val) (h : (i, v) ∈ l) :
+    ∃ w, l.lookup i = some w := by
+  induction l with
+  | nil => simp at h
+  | cons e t ih =>
+    obtain ⟨j, w⟩ := e
+    simp only [List.lookup]
+    by_cases hij : i = j
+    · simp [hij]
+    · have : (i == j) = false := by simpa using hij
+      simp only [this]
+      rcases List.mem_cons.1 h with h1 | h1
+      · simp only [Prod.mk.injEq] at h1; exact absurd h1.1 hij
+      · exact ih h1
+
+theorem closest_valid (cfg : FCfg) (x : Val) (i : Int) (h : closest cfg.vdict x = some i) : validIdx cfg i = true := by
+  unfold validIdx
+  cases hv : cfg.vdict with
+  | nil => rw [hv] at h; simp [closest] at h
+  | cons c cs =>
+    rw [hv] at h
+    simp only [closest, Option.some.injEq] at h
+    obtain ⟨h1, _, _⟩ := closestFrom_spec x cs c
+    have hmem : closestFrom c cs x ∈ c :: cs := by
+      rcases h1 with h1 | h1
+      · rw [h1]; exact List.mem_cons_self
+      · exact List.mem_cons_of_mem _ h1
+    obtain ⟨w, hw⟩ := lookup_isSome_of_mem (c :: cs) i (closestFrom c cs x).2 (by rw [← h]; exact hmem)
+    rw [hw]; rfl
+
+/-- a driver-side assignment to the float parameter: the callback moves the index to the closest label -/
+theorem finv_assignFloat (cfg : FCfg) (x : Val) (s : FSt) (h : FInv cfg s) : FInv cfg (assignFloat cfg x s) := by
+  unfold assignFloat
+  simp only
+  by_cases heq : (cfg.vdict.lookup s.idx == some x) = true
+  · simp only [heq, if_true]
+    simp only [FInv, ShowsIndexValue, femit]
+    simpa using heq
+  · simp only [heq]
+    cases hc : closest cfg.vdict x with
+    | none =>
+      -- impossible: the current index has a value, so the valuedict is not empty
+      exfalso
+      unfold FInv ShowsIndexValue at h
+      cases hv : cfg.vdict with
+      | nil => rw [hv] at h; simp at h
+      | cons c cs => rw [hv] at hc; simp [closest] at hc
+    | some i =>
+      have := finv_announceIdx cfg i { s with value := x } (closest_valid cfg x i hc)
+      simpa [FInv, ShowsIndexValue, femit] using this
+
 /-- what is recorded for one operation of the model (mirrors what the harness records from the code) -/
 def frecOf (cfg : FCfg) (s : FSt) (op : FOp) : FRec :=
   { write := match op with | .writeFloat x _ => some x | _ => none,
@@ -560,13 +614,9 @@ def frecOf (cfg : FCfg) (s : FSt) (op : FOp) : FRec :=
     selected := match op with | .writeFloat x _ => closest cfg.vdict x | _ => none,
     idx := (fstep1 cfg s op).idx, value := (fstep1 cfg s op).value }
 
-def isAssignFloat : FOp → Bool
-  | .driverAssignFloat _ => true
-  | _ => false
-
-theorem finv_step (cfg : FCfg) (s : FSt) (op : FOp) (h : FInv cfg s) (hop : isAssignFloat op = false) :
+theorem finv_step (cfg : FCfg) (s : FSt) (op : FOp) (h : FInv cfg s) :
     FInv cfg (fstep1 cfg s op) := by
-  have h' : FInv cfg { s with evs := [] } := h
+  have h' : FInv cfg { s with evs := [], exc := none } := h
   unfold fstep1
   cases op with
   | writeFloat x w => exact finv_writeFloat cfg x w _ h'
@@ -575,8 +625,8 @@ theorem finv_step (cfg : FCfg) (s : FSt) (op : FOp) (h : FInv cfg s) (hop : isAs
     simp only [fstep]
     split
     · cases r with
-      | none => exact h'
-      | some j =>
+      | fail k => exact h'
+      | ok j =>
         simp only
         split
         · rename_i hj; exact finv_announceIdx cfg j _ hj
@@ -588,7 +638,7 @@ theorem finv_step (cfg : FCfg) (s : FSt) (op : FOp) (h : FInv cfg s) (hop : isAs
     split
     · rename_i hj; exact finv_announceIdx cfg j _ hj
     · exact h'
-  | driverAssignFloat x => simp [isAssignFloat] at hop
+  | driverAssignFloat x => exact finv_assignFloat cfg x _ h'
 
 theorem writeFloat_ok_selected (cfg : FCfg) (x : Val) (w : WRes Int) (s : FSt)
     (hok : (writeFloat cfg x w s).ok = true) : ∃ i, closest cfg.vdict x = some i := by
